@@ -92,9 +92,27 @@ def build(sc, record=True):
     else:
         m.setTemperatureFunction(temperature_fn(T))
     L = zl[1] - zl[0]
+    api = sc.get("api", "parameters")      # "model": the model-level wrapper functions where one exists for the request
     for e in els[1:]:
         steps = sc["profile"][e]
-        m.compositionProfile.clearCompositionBuildSteps(e)
+        if api == "model" and len(steps) == 1:
+            st_ = steps[0]
+            k = st_[0]
+            if k == "linear":
+                m.setCompositionLinear(st_[1], st_[2], element=e)
+            elif k == "step":
+                m.setCompositionStep(st_[1], st_[2], zl[0] + st_[3] * L, element=e)
+            elif k == "single":
+                m.setCompositionSingle(st_[1], zl[0] + st_[2] * L, element=e)
+            elif k == "bounded":
+                m.setCompositionInBounds(st_[1], zl[0] + st_[2] * L, zl[0] + st_[3] * L, element=e)
+            elif k == "function":
+                m.setCompositionFunction(profile_fn([st_[1], st_[2], st_[3], L]), element=e)
+            elif k == "data":
+                m.setCompositionProfile([zl[0] + f * L for f in st_[1]], st_[2], element=e)
+            steps = []
+        else:
+            m.compositionProfile.clearCompositionBuildSteps(e)
         for st_ in steps:
             k = st_[0]
             if k == "linear":
@@ -112,7 +130,11 @@ def build(sc, record=True):
                 m.compositionProfile.addProfileCompositionStep(e, st_[2], zs)
         bc = sc["bc"][e]
         if e not in sc.get("bc_default", ()):       # elements listed there rely on the model's default (closed) boundaries
-            m.setBC(bc[0], bc[1], bc[2], bc[3], element=e)
+            if api == "model":
+                m.setBC(bc[0], bc[1], bc[2], bc[3], element=e)
+            else:
+                m.boundaryConditions.setLeftBoundaryCondition(["flux", "composition"][bc[0]] if sc.get("bc_names") else bc[0], bc[1], e)
+                m.boundaryConditions.setRightBoundaryCondition(["flux", "composition"][bc[2]] if sc.get("bc_names") else bc[2], bc[3], e)
     if "cache" in sc:
         m.useCache(sc["cache"])
     if "hash_s" in sc:
